@@ -58,9 +58,20 @@ pub enum Flag {
     None,
     More,
     Oneway,
+    /// `more: true` and `oneway: true` on one request: oneway wins, nothing is replied
+    MoreOneway,
 }
 
-pub const FLAGS: [Flag; 3] = [Flag::None, Flag::More, Flag::Oneway];
+impl Flag {
+    pub fn more(self) -> bool {
+        matches!(self, Flag::More | Flag::MoreOneway)
+    }
+    pub fn oneway(self) -> bool {
+        matches!(self, Flag::Oneway | Flag::MoreOneway)
+    }
+}
+
+pub const FLAGS: [Flag; 4] = [Flag::None, Flag::More, Flag::Oneway, Flag::MoreOneway];
 
 #[derive(Clone, Copy, Debug, PartialEq, Eq, Hash, PartialOrd, Ord)]
 pub struct Sym {
@@ -74,6 +85,7 @@ impl Sym {
             Flag::None => "",
             Flag::More => "+more",
             Flag::Oneway => "+oneway",
+            Flag::MoreOneway => "+more+oneway",
         };
         format!("{:?}{}", self.kind, f)
     }
@@ -84,7 +96,7 @@ impl Sym {
     /// dispatch returns Err after its InvalidParameter reply; a `continues` reply without `more`
     /// fails).
     pub fn closes(&self) -> bool {
-        matches!(self.kind, Kind::BadMissing | Kind::BadType) || (self.kind == Kind::NaiveStream && self.flag != Flag::More)
+        matches!(self.kind, Kind::BadMissing | Kind::BadType) || (self.kind == Kind::NaiveStream && !self.flag.more())
     }
     /// error-producing or streaming (the C01 non-triviality rule looks for one of these before
     /// another request)
@@ -98,7 +110,7 @@ impl Sym {
                 | Kind::EchoVariant
                 | Kind::Big(_)
                 | Kind::Upgrade
-        ) || (self.flag == Flag::More && matches!(self.kind, Kind::Stream0 | Kind::Stream2))
+        ) || (self.flag.more() && matches!(self.kind, Kind::Stream0 | Kind::Stream2))
     }
 }
 
@@ -112,7 +124,7 @@ pub fn token(i: usize) -> String {
     }
 }
 
-/// The C01 alphabet: 18 kinds x 3 flags.
+/// The C01 alphabet: 18 kinds x 4 flag combinations.
 pub fn alphabet() -> Vec<Sym> {
     let mut v = vec![];
     for k in KINDS {
@@ -250,6 +262,10 @@ pub fn request(s: Sym, i: usize) -> Value {
         Flag::Oneway => {
             m.insert("oneway".into(), Value::Bool(true));
         }
+        Flag::MoreOneway => {
+            m.insert("more".into(), Value::Bool(true));
+            m.insert("oneway".into(), Value::Bool(true));
+        }
     }
     if s.kind == Kind::Upgrade {
         m.insert("upgrade".into(), Value::Bool(true));
@@ -343,7 +359,7 @@ pub const E_METHOD_NOT_IMPL: &str = "org.varlink.service.MethodNotImplemented";
 /// What the property statements (C01, C03, C04, C05, C08) say the T-service must answer.
 pub fn expect(s: Sym, i: usize) -> Exp {
     let tok = token(i);
-    let more = s.flag == Flag::More;
+    let more = s.flag.more();
     let mut conts = vec![];
     let mut may_close_instead = false;
     let mut upgrades = false;
@@ -404,7 +420,7 @@ pub fn expect(s: Sym, i: usize) -> Exp {
         }
     };
     Exp {
-        oneway: s.flag == Flag::Oneway,
+        oneway: s.flag.oneway(),
         conts,
         any_conts: false,
         fin,
@@ -551,7 +567,7 @@ pub fn check_replies(
         let mut ci = 0usize;
         while pos < replies.len() && is_continues(&replies[pos]) {
             let r = &replies[pos];
-            if s.flag != Flag::More {
+            if !s.flag.more() {
                 return Err(Fail::new(
                     format!("{}/continues-without-more/{:?}", where_, s.kind),
                     format!(
